@@ -16,6 +16,7 @@
 From Coq Require Import ZArith List Bool.
 From DD Require Import Proto ProtoSpec ProtoCases ProtoProofs.
 From DD Require Mir GenErr Layout Reset ResetProofs ResetWire.
+From DD Require Carrier BitsSpec LayoutProofs FieldSetGen ModifyField.
 Import ListNotations.
 
 (* ceil(size/8): the register buffer of a `sz`-bit field set *)
@@ -181,6 +182,52 @@ Module RefReset.
 End RefReset.
 Definition C05_ref_reset := RefReset.C05_ref_reset.
 
+(* Composition with the generated field setters (C06) and the layout of the bit operations (C01/C02):
+   `reg.modify(|r| r.set_x(v))` on a register of an accepted definition performs one read; if it fails, nothing is
+   written; otherwise exactly one write to the same address with the same size, whose bytes are the bytes the
+   device returned with the set-bits of x's declared range replaced by v's (store_post: every set-bit outside
+   [start, end) exactly as the device returned it). *)
+Module ModifyFieldC.
+  Import Coq.Strings.String.
+  Import Coq.Lists.List.
+  Import DD.Common DD.Carrier DD.BitsSpec DD.Mir DD.Layout DD.LayoutProofs DD.FieldSetGen DD.ModifyField.
+  Theorem C05_modify_sets_only_the_field : forall ptrw bo bi size f v orc h a,
+    In ptrw ptr_widths -> (0 < size)%Z ->
+    field_ok size f -> (0 <= f_start f)%Z -> (field_end f - f_start f <= 128)%Z ->
+    let c1 := Proto.RegRead a size (Proto.zeros (Proto.nbytes size)) in
+    let r1 := orc h c1 in
+    let reg := Proto.overlay (Proto.r_data r1) (Proto.zeros (Proto.nbytes size)) in
+    bytes_ok reg ->
+    exists data,
+      store_post (to_byte_order bo) (to_bit_order bi) v (f_start f) (field_end f) reg data /\
+      Proto.run orc (Proto.reg_modify a size (field_setter_closure ptrw bo bi f v)) h =
+        match Proto.r_res r1 with
+        | Proto.RErr e => ([(c1, r1)], Proto.Done (Proto.RErr e))
+        | Proto.ROk _ => let c2 := Proto.RegWrite a size data in
+                   let r2 := orc (h ++ [(c1, r1)])%list c2 in
+                   ([(c1, r1); (c2, r2)],
+                    Proto.Done (match Proto.r_res r2 with Proto.ROk _ => Proto.ROk tt | Proto.RErr e => Proto.RErr e end))
+        end.
+  Proof. exact ModifyField.modify_sets_only_the_field. Qed.
+
+  (* evaluated: device returns [0xA5; 0x5A] for a 16-bit LE/LSB0 register; modify sets the uint field [4,12)
+     to 0xFF: one read, one write of [0xF5; 0x5F] *)
+  Example C05_modify_field_example :
+    let f := {| f_cfg := None; f_name := "x"%string; f_access := RW; f_base := BUint; f_conv := None;
+                f_start := 4; f_end := 12 |} in
+    let orc := fun (_ : list (Proto.call * Proto.resp)) (c : Proto.call) =>
+                 match c with
+                 | Proto.RegRead _ _ _ => Proto.mkResp (Proto.ROk 0%nat) [0xA5; 0x5A]%Z
+                 | _ => Proto.mkResp (Proto.ROk 0%nat) []
+                 end in
+    Proto.run orc (Proto.reg_modify 7 16 (field_setter_closure 64 BoLE BiLSB0 f 0xFF)) [] =
+      ([(Proto.RegRead 7 16 [0; 0]%Z, Proto.mkResp (Proto.ROk 0%nat) [0xA5; 0x5A]%Z);
+        (Proto.RegWrite 7 16 [0xF5; 0x5F]%Z, Proto.mkResp (Proto.ROk 0%nat) [])],
+       Proto.Done (Proto.ROk tt)).
+  Proof. vm_compute. reflexivity. Qed.
+End ModifyFieldC.
+Definition C05_modify_sets_only_the_field := ModifyFieldC.C05_modify_sets_only_the_field.
+
 Print Assumptions C05_nbytes_ceil.
 Print Assumptions C05_write.
 Print Assumptions C05_write_with_zero.
@@ -190,3 +237,4 @@ Print Assumptions C05_async_agrees_meaning.
 Print Assumptions C05_async_equiv.
 Print Assumptions C05_async_equiv_seq.
 Print Assumptions C05_ref_reset.
+Print Assumptions C05_modify_sets_only_the_field.
